@@ -440,6 +440,38 @@ class Walker:
                                 cond = ("discr", args[0], ((0, "None"), (1, "Some")))
                                 res = ("fork", [(cond, 1, ("agg", "adt", "core::option::Option", "Some", [v])),
                                                 (cond, 0, ("agg", "adt", "core::option::Option", "None", []))])
+                if info["key"] in ("Result<T, E>::map_or", "Option<T>::map_or", "Result<T, E>::map_or_else",
+                                   "Option<T>::map_or_else") and len(args) == 3 and mir.strip_refs(args[0])[0] == "agg" and \
+                        mir.strip_refs(args[0])[2] in ("core::option::Option", "core::result::Result"):
+                    # the variant of x is known on this path
+                    x = mir.strip_refs(args[0])
+                    if x[3] in ("Some", "Ok") and x[4]:
+                        r_ = self._apply_fn(args[2], x[4][0], site)
+                    elif info["key"].endswith("_else"):
+                        r_ = self._apply_fn(args[1], x[4][0], site) if x[4] else self._closure_value(args[1])
+                    else:
+                        r_ = args[1]
+                    if r_ is not None and not (r_[0] == "call" and r_[1] == "apply"):
+                        res = r_
+                elif info["key"] in ("Result<T, E>::map_or", "Option<T>::map_or", "Result<T, E>::map_or_else",
+                                     "Option<T>::map_or_else") and len(args) == 3 and args[0][0] in ("call", "ref", "field", "arg"):
+                    # x.map_or(d, f) == match x { Ok(v)/Some(v) => f(v), _ => d }; map_or_else evaluates a closure for d
+                    x = args[0]
+                    is_res = info["key"].startswith("Result")
+                    payload = ("okval", x) if is_res else ("field", ("variant", x, "Some"), "0", 0, "?")
+                    v_ok = self._apply_fn(args[2], payload, site)
+                    if info["key"].endswith("_else"):
+                        v_d = self._apply_fn(args[1], ("errval", x), site) if is_res else (self._closure_value(args[1]) or None)
+                    else:
+                        v_d = args[1]
+                    if v_d is not None and not (v_ok[0] == "call" and v_ok[1] == "apply") and \
+                            not (isinstance(v_d, tuple) and v_d[0] == "call" and v_d[1] == "apply"):
+                        if is_res:
+                            cond = ("discr", x, ((0, "Ok"), (1, "Err")))
+                            res = ("fork", [(cond, 0, v_ok), (cond, 1, v_d)])
+                        else:
+                            cond = ("discr", x, ((0, "None"), (1, "Some")))
+                            res = ("fork", [(cond, 1, v_ok), (cond, 0, v_d)])
                 if isinstance(res, tuple) and res and res[0] == "fork":
                     opaque = ("call", info["key"], info["def"], args, site, info["targs"])
                     events.append(("call", site, info["key"], info["base_key"], info["def"], args, info["targs"], opaque))
@@ -680,6 +712,11 @@ def model_call(info, args):
             # `?` applied to a value that is already a propagated error (returned by an inlined helper)
             return ("agg", "adt", "core::ops::control_flow::ControlFlow", "Break", [("residual", x[1])])
         return ("try", args[0])
+    if k in ("Option<T>::is_some", "Option<T>::is_none", "Result<T, E>::is_ok", "Result<T, E>::is_err") and args:
+        x = mir.strip_refs(args[0])
+        if x[0] == "agg" and x[2] in ("core::option::Option", "core::result::Result"):
+            yes = {"is_some": "Some", "is_none": "None", "is_ok": "Ok", "is_err": "Err"}[k.split("::")[-1]]
+            return ("const", "bool", 1 if x[3] == yes else 0, "true" if x[3] == yes else "false", None, None)
     if k.endswith("::from_residual") and args:
         x = args[0]
         if x[0] == "residual":
